@@ -82,7 +82,11 @@ def layouts(seq, rng):
         lines = [seq[i:i + width] for i in range(0, len(seq), width)]
         style = rng.choice(["plain", "fasta", "spaced", "numbered", "genbank", "blank", "star", "crlf", "indent"])
         body = []
+        star_inline = (style == "star" or rng.random() < 0.2) and rng.random() < 0.5
+        star_own_line = not star_inline and (style == "star" or rng.random() < 0.2)
         for k, ln in enumerate(lines):
+            if star_inline and k == len(lines) - 1:
+                ln = ln + "*"          # the stop codon directly after the last residue (before any decoration of the line)
             if style in ("spaced", "genbank", "numbered"):
                 ln = " ".join(ln[i:i + 10] for i in range(0, len(ln), 10))
             if style == "numbered":
@@ -97,12 +101,7 @@ def layouts(seq, rng):
         head = [">sp|P%05d|TEST_%d some protein OS=Homo sapiens 1234 *" % (rng.randint(0, 99999), rng.randint(0, 9))] if style in ("fasta", "star", "crlf") or rng.random() < 0.3 else []
         if rng.random() < 0.2:
             head = [""] + head
-        tail = []
-        if style == "star" or rng.random() < 0.2:
-            if rng.random() < 0.5 and body:
-                body[-1] = body[-1] + "*"
-            else:
-                tail = ["*"]
+        tail = ["*"] if star_own_line else []
         nl = "\r\n" if style == "crlf" else "\n"
         text = nl.join(head + body + tail) + (nl if rng.random() < 0.7 else "")
         out.append(text)
